@@ -480,6 +480,13 @@ Theorem C09_media_type_tables :
 Proof. exact media_type_tables_final. Qed.
 Print Assumptions C09_media_type_tables.
 
+(* Delete and GC hold the store's write lock for their whole body, every other operation the
+   read lock (regenerated call sequences): the justification of "sequential histories" --
+   under sync.RWMutex no other operation of the store overlaps a Delete or a GC *)
+Theorem C09_lock_discipline : lock_discipline = true.
+Proof. exact lock_discipline_final. Qed.
+Print Assumptions C09_lock_discipline.
+
 (* ---- the graph abstraction ---- *)
 
 (* The C09 model represents graph.Memory by its node set and derives predecessors and
